@@ -13,7 +13,9 @@ RULE = ("Hypothesis-generated (observations, ensemble) pairs: n forecasts x m "
         "ndarray/list/Series, plus drawn member/forecast permutations, shift "
         "and scale for the metamorphic relations. Oracle: O(n m^2) evaluation "
         "of mean(E|X-y| - 0.5 E|X-X'|), 0.5 mean|y-y'|, the decomposition "
-        "identities, sign constraints, table consistency. Non-trivial = a tie "
+        "identities, sign constraints, table consistency, and for tie-free "
+        "data reliability / potential written from Hersbach (2000) Eq. 26-37. "
+        "Non-trivial = a tie "
         "(member-member or member-observation) or an outlier forecast or "
         "m <= 2; distinct = distinct serialised case.")
 
@@ -34,6 +36,57 @@ def ref_unc(obs):
     return 0.5 * np.mean(np.abs(obs[:, None] - obs[None, :]))
 
 
+def ref_hersbach(obs, ens):
+    """Reliability and potential CRPS written from Hersbach (2000), Eq.
+    26-27, 30-33, 36-37, for data WITHOUT ties (distinct members, no member
+    equal to the observation), where the paper's definitions are
+    unambiguous."""
+    n, m = ens.shape
+    a = np.zeros(m + 1)
+    b = np.zeros(m + 1)
+    o0 = oN = 0.0
+    for i in range(n):
+        x = np.sort(ens[i])
+        y = obs[i]
+        for j in range(1, m):
+            lo, hi = x[j - 1], x[j]
+            if y >= hi:
+                a[j] += hi - lo
+            elif y <= lo:
+                b[j] += hi - lo
+            else:
+                a[j] += y - lo
+                b[j] += hi - y
+        if y < x[0]:
+            b[0] += x[0] - y
+            o0 += 1
+        if y > x[-1]:
+            a[m] += y - x[-1]
+        if y < x[-1]:
+            oN += 1
+    a, b, o0, oN = a / n, b / n, o0 / n, oN / n
+    reli = pot = 0.0
+    for j in range(m + 1):
+        p = j / m
+        if j == 0:
+            if o0 == 0:
+                continue
+            g, o = b[0] / o0, o0
+        elif j == m:
+            if oN == 1:
+                continue
+            g, o = a[m] / (1 - oN), oN
+        else:
+            g = a[j] + b[j]
+            if g <= 0:
+                continue
+            o = b[j] / g
+        if g > 0:
+            reli += g * (o - p) ** 2
+            pot += g * o * (1 - o)
+    return reli, pot
+
+
 # ------------------------------------------------------------------ generator
 @st.composite
 def cases(draw, tier):
@@ -42,7 +95,8 @@ def cases(draw, tier):
     n = draw(st.integers(1, nmax))
     m = draw(st.integers(1, mmax))
     regime = draw(st.sampled_from(["normal", "lattice", "outlier",
-                                   "constant", "lattice", "mixed"]))
+                                   "constant", "lattice", "mixed",
+                                   "normal"]))
     fl = st.floats(-1e3, 1e3, allow_nan=False, width=64)
     lat = st.integers(-3, 3).map(float)
     if regime == "normal":
@@ -151,6 +205,18 @@ def oracle(case):
         raise Violation(f"uncertainty {d['uncertainty']!r} != crps of "
                         f"climatology {dc['crps']!r}")
 
+    # reliability / potential against the paper's equations (tie-free data)
+    notie = all(len(set(r)) == m for r in vens.tolist()) and \
+        not np.any(vens == vobs[:, None])
+    if notie:
+        rr, rp = ref_hersbach(vobs, vens)
+        if not close(d["reliability"], rr, tol):
+            raise Violation(f"reliability {d['reliability']!r} != Hersbach "
+                            f"Eq. 36 {rr!r}")
+        if not close(d["potential"], rp, tol):
+            raise Violation(f"potential crps {d['potential']!r} != Hersbach "
+                            f"Eq. 37 {rp!r}")
+
     # table
     if t.shape != (m + 1, 7):
         raise Violation(f"table shape {t.shape}")
@@ -222,6 +288,8 @@ def oracle(case):
         labels.append("m<=2")
     if n == 1:
         labels.append("n=1")
+    if notie:
+        labels.append("tie-free:hersbach-reference")
     for kk, v in exact.items():
         labels.append(f"{kk}:{'order-preserving' if v else 'rounding-changes-ties'}")
     return {"nt": ties_mm or ties_mo or outl or m <= 2, "labels": labels}
